@@ -16,6 +16,10 @@ def run(ctx):
                 "unconditionally; From<AllocResult>/From<Option> map failure to INVALID and get() maps a null handle to "
                 "Err(OutOfMemory); op1/op2/op3 validate every operand. E-LIN and E-UNITS on the FFI crate.")
     effi.run(ctx, F)
+    ctx.explain("E-FFI.fresh: an exported function returning a handle never returns one of its argument handles (the "
+                "caller unrefs argument and result separately), except the *_ref functions, which take a reference.")
+    n = effi.check_fresh_handles(ctx, F)
+    ctx.floor("E-FFI.fresh", "exported functions taking and returning a handle", n, 50)
     st = elin.run(ctx, F, crates=("oxidd_ffi_c",), skip_guard_table=True)
     ctx.floor("E-LIN", "FFI bodies analysed", st["bodies"], 300)
     eunits.run(ctx, F, crates=("oxidd_ffi_c",))
